@@ -262,8 +262,14 @@ def recursion(ctx, L, cg, funcs, establishers):
     L.floor('F12.recursion', n, 5)
     fp = ctx.py.mod('prophyc.file_processor').func('FileProcessor._process_file')
     s = ws(unparse(fp.node))
-    L.check(inn('if abspath in self.files: if self.files[abspath] is None: raise CyclicIncludeError(path) return self.files[abspath] '
-            'self.files[abspath] = None', s), 'F12.establisher', 'include cycle marker', fp.site(),
+    from . import shared_py as P
+    CP = ['self', 'path']
+    marks = [a for a in fp.walk() if isinstance(a, ast.Assign) and P.sem_is(fp, a, 'self.files[os.path.abspath(path)] = None', CP)]
+    raises = [r for r in fp.walk() if isinstance(r, ast.Raise) and 'CyclicIncludeError' in unparse(r.exc)
+              and P.knows(fp, r, 'os.path.abspath(path) in self.files and self.files[os.path.abspath(path)] is None', True, CP)]
+    procs = [c for c in fp.walk() if isinstance(c, ast.Call) and unparse(c.func) == 'self.process_content']
+    L.check(len(marks) == 1 and len(raises) == 1 and len(procs) == 1 and marks[0].lineno < procs[0].lineno
+            and P.knows(fp, procs[0], 'os.path.abspath(path) in self.files', False, CP), 'F12.establisher', 'include cycle marker', fp.site(),
             'the cycle marker must be stored before processing and tested (is None) before use', s[:300])
 
 
